@@ -72,16 +72,19 @@ func (r *Eval) run(ctx context.Context) (ret Object, err error) {
 	// Always check whether context is done before running VM because
 	// parser and compiler may take longer than expected or context may be
 	// canceled for any reason before run, so use two selects.
+	verifSync("Eval.run.beforeSelect1")
 	select {
 	case <-ctx.Done():
 		r.VM.Abort()
 		err = ctx.Err()
 	default:
+		verifSync("Eval.run.beforeGo")
 		go func() {
 			defer close(doneCh)
 			ret, err = r.VM.Run(r.Globals, r.Locals...)
 		}()
 
+		verifSync("Eval.run.beforeSelect2")
 		select {
 		case <-ctx.Done():
 			r.VM.Abort()
